@@ -470,6 +470,56 @@ def evaluate(ctx, cases):
         ctx.sample({'xml': xml[:200], 'paths': [r['path'] for r in o['paths'][:5]]}, cap=4)
 
 
+# ------------------------------------------------------------------ the selector cache (KeyedMemo.v)
+def subject_selcache(case):
+    """a history of cached_selector(path, namespaces) calls in one process; each result is compared with a selector built
+    afresh for the same arguments, by what it selects on a document"""
+    import xmlschema
+    from xmlschema.xpath.selectors import ElementSelector, _selectors_cache
+    out = []
+    for path, nsitems, di in case['calls']:
+        ns = dict(nsitems)
+        res = xmlschema.XMLResource(case['docs'][di])
+        before = len(_selectors_cache)
+        try:
+            cached = ElementSelector.cached_selector(path, ns)
+            hit = len(_selectors_cache) == before
+            got = [e.tag for e in cached.iter_select(res)]
+            want = [e.tag for e in ElementSelector(path, ns).iter_select(res)]
+            out.append({'hit': hit, 'got': got, 'want': want})
+        except Exception as e:  # noqa
+            out.append({'exc': common.exc_class(e) + ': ' + str(e)[:80]})
+    return out
+
+
+def check_selector_cache(ctx):
+    rng = ctx.rng
+    docs = ['<root xmlns="urn:a"><a><item>1</item></a><item>2</item></root>', '<root xmlns="urn:b"><a><item>1</item></a><item>2</item></root>',
+            '<root><a><item>1</item></a><item>2</item></root>', '<p:root xmlns:p="urn:a"><p:a><p:item>1</p:item></p:a><p:item>2</p:item></p:root>']
+    paths = ['item', 'a/item', '*/item', './/item', 'p:item', 'p:a/p:item', '/root/item']
+    nss = [[], [['', 'urn:a']], [['', 'urn:b']], [['p', 'urn:a']], [['p', 'urn:b']], [['', 'urn:a'], ['p', 'urn:b']]]
+    cases = [{'docs': docs, 'calls': [[rng.choice(paths), rng.choice(nss), rng.randrange(len(docs))] for _ in range(rng.randint(3, 8))]}
+             for _ in range(40 if ctx.quick() else 600)]
+    impl = common.pool_map(subject_selcache, cases, fresh_process=True)
+    for c, o in zip(cases, impl):
+        rep = {'kind': 'selector-cache', 'case': c, 'impl': o}
+        if isinstance(o, dict):
+            ctx.violation('selector cache family failed to run: %s' % o.get('harness_exception'), rep, no_input=True)
+            continue
+        for k, ((path, ns, di), r) in enumerate(zip(c['calls'], o)):
+            ctx.count(('selcache', json.dumps(c['calls'][:k + 1])), nontrivial=k > 0)
+            if 'exc' in r:
+                ctx.dist('selector cache', 'raises')
+                continue
+            ctx.dist('selector cache', 'hit' if r['hit'] else 'miss')
+            if r['got'] != r['want']:
+                ctx.violation('after the calls %s the cached selector for path %r with namespaces %s selects %s in %s, a selector built afresh '
+                              'selects %s (a cache key that forgets part of the arguments: C10_keyed_memo_history / C10_coarse_key_refuted)'
+                              % (c['calls'][:k], path, dict(ns), r['got'], c['docs'][di][:60], r['want']),
+                              dict(rep, theorem='C10_keyed_memo_history'))
+                break
+
+
 def gen(ctx):
     rng = ctx.rng
     cases = []
@@ -496,9 +546,13 @@ def run(ctx):
                 'with and without target namespace (prefixed and default-namespace spelling) x every element path with and '
                 'without positional predicates x max_depth 1-4; non-trivial = path of depth >= 2 (and every max_depth case)')
     evaluate(ctx, gen(ctx))
+    check_selector_cache(ctx)
     ctx.assumptions = ['only child-step paths (with positional predicates) are claimed; general XPath is elementpath\'s',
                        'decoded parts are compared with the JsonML converter (ordered, addressable)']
 
 
 def replay(ctx, case):
-    evaluate(ctx, [case['case']])
+    if case.get('kind') == 'selector-cache':
+        check_selector_cache(ctx)
+    else:
+        evaluate(ctx, [case['case']])
